@@ -99,6 +99,9 @@ class C04(Prop):
         'TexNode.all is only required at the root',
         'identity of text leaves = identity of the token they carry',
     )
+    probes = ('reach',)
+    probed_every = 10
+    reach_required = ['data.TexNode.contents', 'data.TexNode.children', 'data.TexNode.text', 'data.TexNode.all', 'data.TexExpr.contents', 'data.TexExpr.children', 'data.TexNode.__iter__', 'data.TexNode.__getitem__']
     min_nontrivial = 500
     budget_s = {'quick': 240, 'thorough': 3000}
 
